@@ -11,15 +11,15 @@ theorem toU64_nonneg {v : Int} (h0 : 0 ≤ v) (h1 : v < 2 ^ 63) : (toU64 v : Int
 
 /-- the comparison is the order of the stored numbers -/
 theorem compare_spec (a b : Stored) (ha : a.WF) (hb : b.WF) :
-    compare a b = (if a.val = b.val then 0 else if a.val < b.val then -1 else 1) := by
+    compareStored a b = (if a.val = b.val then 0 else if a.val < b.val then -1 else 1) := by
   cases a with
   | i64 x =>
     cases b with
     | i64 y =>
-      simp only [compare, Stored.val]
+      simp only [compareStored, Stored.val]
       by_cases h : x = y <;> by_cases h' : x < y <;> simp [h, h']
     | u64 y =>
-      simp only [compare, Stored.val]
+      simp only [compareStored, Stored.val]
       by_cases hx : x < 0
       · have h1 : ¬ (x = (y : Int)) := by omega
         have h2 : x < (y : Int) := by omega
@@ -40,7 +40,7 @@ theorem compare_spec (a b : Stored) (ha : a.WF) (hb : b.WF) :
   | u64 x =>
     cases b with
     | i64 y =>
-      simp only [compare, Stored.val]
+      simp only [compareStored, Stored.val]
       by_cases hy : y < 0
       · have h1 : ¬ ((x : Int) = y) := by omega
         have h2 : ¬ ((x : Int) < y) := by omega
@@ -60,7 +60,7 @@ theorem compare_spec (a b : Stored) (ha : a.WF) (hb : b.WF) :
           · have : ¬ ((x : Int) < y) := by omega
             simp [h1, h2, hne, this]
     | u64 y =>
-      simp only [compare, Stored.val]
+      simp only [compareStored, Stored.val]
       by_cases h1 : x = y
       · simp [h1]
       · have : ¬ ((x : Int) = (y : Int)) := by omega
